@@ -3,6 +3,7 @@ package main
 // Script generators of family "broker", one mode per property.
 
 import (
+	"encoding/hex"
 	"fmt"
 	"math/rand"
 )
@@ -312,6 +313,12 @@ func (e2eFamily) Gen(n int, seed int64, mode, tier string) []interface{} {
 				ka := []int{10, 60, 300}[rng.Intn(3)]
 				if rng.Intn(6) == 0 {
 					s.add(e2eOp{Op: "connect", N: node, C: c, CID: "id-" + c, Pass: []string{"bad", "bad-static"}[rng.Intn(2)], KA: ka})
+					continue
+				}
+				if rng.Intn(8) == 0 {
+					// a client identifier that is not well-formed UTF-8 (with a will): refused by closing, no trace
+					odd := []string{"id\xff", "\xc3\x28", "\xed\xa0\x80", "\xc0\xaf", "ab\xe2\x82"}[rng.Intn(5)]
+					s.add(e2eOp{Op: "rawconnect", N: node, C: c, Hex: hex.EncodeToString(encConnect(odd, "", "", ka, &jPub{T: "x/y", P: "ghost", Q: 0}, true))})
 					continue
 				}
 				s.connect(node, c, "id-"+c, "", ka, nil)
